@@ -43,7 +43,9 @@ Judge(e) ==
     CASE e.ev = "load" -> IF e.ok THEN "ok" ELSE Rejection(e)
       [] e.ev = "exec_begin" -> IF F # {} THEN "C12.ExecBeforeReject" ELSE IF ~KwOk(e) THEN "C12.ExecuteArguments" ELSE "ok"
       [] e.ev = "ret_run" ->
-            IF e.ok THEN (IF F # {} THEN "C12.AcceptedIllFormed" ELSE "ok")
+            \* C14: a well-formed model whose references contain a cycle ends in the recursive-model error, whatever commands take part
+            IF F = {} /\ Cyclic(T.prog) THEN (IF e.ok THEN "C14.ReturnedOk" ELSE IF e.cls # "RecursiveModelStructure" THEN "C14.WrongError" ELSE "ok")
+            ELSE IF e.ok THEN (IF F # {} THEN "C12.AcceptedIllFormed" ELSE "ok")
             ELSE IF nbegin > 0 /\ F = {} THEN (IF ~e.mp /\ ~e.syn THEN "C13.EscapedClass" ELSE "ok")     \* run-time (semantic) failure of a well-formed model
             ELSE Rejection(e)
       [] e.ev = "files" -> IF F # {} /\ e.n > 0 THEN "C12.FileWritten" ELSE "ok"
